@@ -185,10 +185,20 @@ class Normaliser:
         return ' and '.join(parts)
 
     # -------------------------------------------------------------- integers
+    @staticmethod
+    def _undivmod(e):
+        """divmod(a, b)[0] -> a // b ; divmod(a, b)[1] -> a % b"""
+        if isinstance(e, ast.Subscript) and isinstance(e.value, ast.Call) and isinstance(e.value.func, ast.Name) and e.value.func.id == 'divmod' \
+                and len(e.value.args) == 2 and isinstance(e.slice, ast.Constant) and e.slice.value in (0, 1):
+            a, b = e.value.args
+            return ast.BinOp(left=a, op=ast.FloorDiv() if e.slice.value == 0 else ast.Mod(), right=b)
+        return e
+
     def norm(self, e, env=None):
         env = env or {}
         if isinstance(e, Poly):
             return e
+        e = self._undivmod(e)
         if isinstance(e, ast.Constant):
             if isinstance(e.value, bool) or not isinstance(e.value, int):
                 raise NotInt(repr(e.value))
@@ -335,6 +345,7 @@ class Normaliser:
 
     def _ceil_ite(self, test, a, b, env):
         """`x//c + 1 if x % c else x//c`  ==> ceil_c(x)"""
+        test = self._undivmod(test)
         try:
             if isinstance(test, ast.Compare) and len(test.ops) == 1:
                 # x % c != 0   /  x % c > 0   /  x % c == 0 (swapped)
